@@ -945,6 +945,7 @@ def oracle_object(ctx, cfg, opts, calls, obs, pre0, seen):
     stale (true although the last check failed / the shank files were rewritten since)."""
     kind, fixture, n, w, compressed = CONFIGS[cfg]
     cur_opts = tuple(opts)
+    prev_state = list(pre0)
     for i, (c, o) in enumerate(zip(calls, obs)):
         if not o.get("state"):
             ctx.disagree("the converter object could not even be built / observed: %s" % o.get("exc", ""),
@@ -992,6 +993,22 @@ def oracle_object(ctx, cfg, opts, calls, obs, pre0, seen):
             if bad:
                 fail("completed call left invalid output: %s" % bad[:3],
                      dict(tags, clause="complete_valid", reopened_reader=o.get("reopened", 0)))
+        if c["ct"] == 0 and kind != 2:
+            before = dict(zip(s.keys(), prev_state))
+            dirs_before = [before[1000 + k] == 2 for k in range(n)]
+            pp = int(any(dirs_before) and not all(dirs_before))
+            orig_there = before[10] == 2 or (before[11] == 2 and before[13] == 2)
+            if o["outcome"] in (100, 201) and o["state"] != prev_state:
+                fail("process() reported %s but changed the directory" %
+                     ("nothing done" if o["outcome"] == 100 else "a missing input"),
+                     dict(tags, clause="status0_changed_disk", partial_prepare=pp, ow=c["ow"]))
+            sub = opts[3] if len(opts) > 3 else 0
+            partial = kind == 0 and sub not in (0, (1 << n) - 1) and cur_opts[0]
+            if c["ow"] and c["crash"] < 0 and c["corrupt"] < 0 and orig_there and not o["closed_before"] \
+                    and not partial and o["outcome"] != 101:
+                fail("forced re-run on the same object did not complete (%d %s)" % (o["outcome"], o.get("exc", "")),
+                     dict(tags, clause="forced_rerun"))
+        prev_state = list(o["state"])
         if c["ct"] == 3:
             cur_opts = (c["post"], c["del"], c["comp"])
         if c["ct"] == 0 and o["closed_before"] and o["outcome"] == 209 and "signal" in o.get("exc", ""):
